@@ -809,7 +809,14 @@ class FuncEmitter:
         self.scope = f.get('_scope', [])
         self.blocks = []           # stack of lists of hoisted temp declarations
         self.bindings = {}         # BindingDecl id -> expr node
-        self.is_method = f['kind'] in ('CXXMethodDecl', 'CXXConstructorDecl', 'CXXDestructorDecl', 'CXXConversionDecl') and f.get('storageClass') != 'static'
+        # `static` appears on the in-class declaration only: follow the redeclaration chain of an out-of-line definition
+        static, nd, seen = False, f, 0
+        while nd is not None and seen < 20:
+            if nd.get('storageClass') == 'static':
+                static = True
+            nd = tu.by_id.get(nd.get('previousDecl')) if nd.get('previousDecl') else None
+            seen += 1
+        self.is_method = f['kind'] in ('CXXMethodDecl', 'CXXConstructorDecl', 'CXXDestructorDecl', 'CXXConversionDecl') and not static
         self.is_ctor = f['kind'] == 'CXXConstructorDecl'
         self.fty = em.ty_of(f['type'], self.scope)
         self.ret = self.fty.inner
